@@ -3,6 +3,7 @@ package main
 import (
 	"bufio"
 	"encoding/json"
+	"errors"
 	"fmt"
 	"math"
 	"math/rand"
@@ -116,7 +117,7 @@ func loadAll(p persistence.Persistence, ids []string) (map[string]string, string
 			return nil, "panic in LoadFanPwmData: " + msg
 		}
 		if err != nil {
-			out["data/"+id] = absent
+			out["data/"+id] = loadErrClass(err)
 		} else {
 			out["data/"+id] = canonF(d)
 		}
@@ -125,12 +126,21 @@ func loadAll(p persistence.Persistence, ids []string) (map[string]string, string
 			return nil, "panic in LoadFanPwmMap: " + msg
 		}
 		if err != nil {
-			out["map/"+id] = absent
+			out["map/"+id] = loadErrClass(err)
 		} else {
 			out["map/"+id] = canonI(m)
 		}
 	}
 	return out, ""
+}
+
+// loadErrClass: a missing entry must be reported as "not found" (os.ErrNotExist); any other load error is
+// something else and never equal to the model's "<absent>".
+func loadErrClass(err error) string {
+	if errors.Is(err, os.ErrNotExist) {
+		return absent
+	}
+	return "<load-error: " + trunc(err.Error()) + ">"
 }
 
 type c14Op struct {
@@ -209,7 +219,7 @@ func c14Sequential(ctx *Ctx) {
 			op.Op = "reopen"
 		default:
 			op.Op = "corrupt"
-			op.Raw = pick(r, "garbage", "", "{\"1\": 2, \"x\": 3}", "{\"1\": \"a\"}", "[1,2]", "{", "\x00\x01\x02", "{\"1\": 1e999}")
+			op.Raw = pick(r, "garbage", "", "{\"1\": 2, \"x\": 3}", "{\"1\": \"a\"}", "[1,2]", "{", "\x00\x01\x02", "{\"1\": 1e999}", "{\"0\":[1200.5,1210]}", "{\"abc\":1}", "\"text\"", "{\"1\": 1.5e400}", "{\"1\": {\"a\": 1}}")
 		}
 		history = append(history, op)
 		ctx.Eval(1)
